@@ -1005,6 +1005,12 @@ pub fn c05_manager_loop(nd: &mut Nondet) {
         }),
         Box::new(move || { let world = unsafe { &mut *(wp as *mut LoopWorld) }; world.queue.pop_front() }));
     let handle = manager.transport_manager_handle();
+    // one installed protocol: it must hear about every failed dial the user hears about
+    let mut protocol = manager.register_protocol(
+        ProtocolName::from("/verif/loop"), Vec::new(), ProtocolCodec::UnsignedVarint(None), Duration::from_secs(5),
+        litep2p::protocol::transport_service::SubstreamKeepAlive::Yes);
+    let proto_waker = noop_waker();
+    let mut proto_cx = Context::from_waker(&proto_waker);
     let local = hooks::local_peer_id(&manager);
     let mut peers: Vec<PeerId> = Vec::new();
     for i in 0..NPEERS {
@@ -1095,6 +1101,7 @@ pub fn c05_manager_loop(nd: &mut Nondet) {
         }
 
         // ---- run the manager until it has nothing more to do; every user-visible event goes through the ledger
+        let mut user_failures: Vec<(usize, Vec<Multiaddr>)> = Vec::new();     // (peer, addresses) of the failure events of this step
         let mut spins = 0;
         loop {
             spins += 1;
@@ -1138,6 +1145,7 @@ pub fn c05_manager_loop(nd: &mut Nondet) {
                             check("c05l.never-both-failure-and-connection-for-one-attempt", !t.announced);
                             check("c05l.failure-report-only-after-the-transport-gave-up", t.stage == 2);
                             t.failures += 1;
+                            user_failures.push((t.peer, vec![address.clone()]));
                         }
                     }
                 }
@@ -1151,12 +1159,31 @@ pub fn c05_manager_loop(nd: &mut Nondet) {
                             check("c05l.never-both-failure-and-connection-for-one-attempt", !t.announced);
                             check("c05l.failure-report-only-after-the-transport-gave-up", t.stage == 2);
                             t.failures += 1;
+                            user_failures.push((t.peer, addresses.clone()));
                         }
                     }
                 }
             }
         }
         check("c05l.transport-events-are-consumed", world.queue.is_empty());
+        // ---- what the installed protocol heard in this step: exactly the failures the user heard, same peer and addresses
+        let mut heard: Vec<(PeerId, Vec<Multiaddr>)> = Vec::new();
+        let mut polls = 0;
+        loop {
+            polls += 1;
+            if polls > 6 { break; }
+            match Pin::new(&mut protocol).poll_next(&mut proto_cx) {
+                Poll::Ready(Some(litep2p::protocol::TransportEvent::DialFailure { peer, addresses })) => heard.push((peer, addresses)),
+                Poll::Ready(Some(_)) => { check("c05l.protocol-hears-only-dial-failures-from-the-manager", false); }
+                Poll::Ready(None) => { check("c05l.protocol-channel-stays-open", false); break; }
+                Poll::Pending => break,
+            }
+        }
+        check("c05l.protocols-hear-exactly-the-failures-the-user-hears", heard.len() == user_failures.len());
+        for k in 0..heard.len().min(user_failures.len()) {
+            check("c05l.protocol-failure-names-the-dialed-peer-and-addresses", heard[k].0 == peers[user_failures[k].0] && heard[k].1 == user_failures[k].1);
+            cover("c05l.protocol.dial-failure");
+        }
 
         // ---- what the manager asked of the transport in this step
         let mut accept_refused = false;
